@@ -7,6 +7,12 @@ package main
 // between requests shows. The line carries the registrations, the hint as the two parsers see it,
 // the answers of path.Match / url.Parse (oracles), and what was observed: status, Location (and how
 // net/url decodes it), OAuth error, and the sessions the storage was asked to terminate.
+//
+// Key sets: a bed's provider is constructed with one of the combinations of the key-set options
+// (c18OptModes: none, WithAccessTokenKeySet(X), WithIDTokenHintKeySet(Y), both in either order, X = the
+// OP's own set, the same set for both, a repeated option, X with a key id that collides with the OP's), and
+// hints are signed by the OP's key, a key of X, a key of Y or a key nobody knows. The line names the OP's own
+// published keys (ks.*) and the options in the order they were passed (opt.*).
 
 import (
 	"bufio"
@@ -62,6 +68,30 @@ const (
 	c18CidKinds  = 4
 	c18PluKinds  = 10
 )
+
+// c18OptModes: the key-set option combinations a provider is constructed with; each entry lists the options in the
+// order they are passed: "at:<set>" = op.WithAccessTokenKeySet, "hint:<set>" = op.WithIDTokenHintKeySet,
+// sets: X (foreign, ring key 1, kid x1), Xc (the same key under the OP's kid sig1), Y (foreign, ring key 3, kid y1),
+// own (a key set with exactly the OP's published keys)
+var c18OptModes = []struct {
+	name string
+	opts []string
+}{
+	{"none", nil},
+	{"at", []string{"at:X"}},
+	{"at-own", []string{"at:own"}},
+	{"hint", []string{"hint:Y"}},
+	{"both", []string{"at:X", "hint:Y"}},
+	{"both-rev", []string{"hint:Y", "at:X"}},
+	{"at-own+hint", []string{"at:own", "hint:Y"}},
+	{"hint-own", []string{"hint:own"}},
+	{"both-same", []string{"at:X", "hint:X"}},
+	{"repeated", []string{"hint:X", "at:Y", "at:X", "hint:Y"}},
+	{"at-kid-collision", []string{"at:Xc"}},
+}
+
+// c18Signers: who signs the hint of a case ("" = the hint kind decides: the OP's key, or an unknown key for the wrong-key kinds)
+var c18Signers = []string{"op", "x", "y", "unknown"}
 
 // c18Subset picks 0..max distinct elements of pool
 func c18Subset(r *hx.Rand, pool []string, max int) []string {
@@ -203,37 +233,113 @@ func c18NearMiss(r *hx.Rand, u string) string {
 	return strings.Replace(u, "://", "://user@", 1)
 }
 
+type c18KeyOpt struct {
+	kind string // at | hint
+	set  string // X | Xc | Y | own
+	keys []pubKey
+}
+
 type c18Bed struct {
 	bed     *opbed.Bed
 	dynamic bool
 	clients []*refstore.Client
 	byID    map[string]*refstore.Client
-	keys    []pubKey
+	keys    []pubKey // the OP's own published keys
 	deflt   string
+	optMode string
+	opts    []c18KeyOpt // the key-set options the provider was constructed with, in order
+	xKey    pubKey      // the key "of X" (signer x)
+	yKey    pubKey      // the key "of Y" (signer y)
+	unknown pubKey      // a key in none of the configured sets
 }
 
-func c18NewBed(r *hx.Rand, router string, termFromReq, dynamic, canonical bool, deflt string, secondKey bool) *c18Bed {
+func c18NewBed(r *hx.Rand, router string, termFromReq, dynamic, canonical bool, deflt string, secondKey bool, optMode int) *c18Bed {
 	cfg := opbed.Config{Router: router, S256: true, DefaultLogoutURI: deflt, Caps: refstore.Caps{TermFromReq: termFromReq}}
 	if dynamic {
 		cfg.IssuerFn = op.IssuerFromHost("")
+	}
+	ring := hx.Keys()
+	mode := c18OptModes[optMode]
+	usesX, usesY := false, false
+	for _, o := range mode.opts {
+		usesX = usesX || strings.HasSuffix(o, ":X") || strings.HasSuffix(o, ":Xc")
+		usesY = usesY || strings.HasSuffix(o, ":Y")
+	}
+	if usesX && usesY {
+		secondKey = false // ring key 2 is then the key nobody knows
+	}
+	own := []pubKey{{k: ring[0], kid: "sig1", use: "sig"}}
+	if secondKey {
+		own = append(own, pubKey{k: ring[2], kid: "sig2", use: "sig"})
+	}
+	xKey, yKey := pubKey{k: ring[1], kid: "x1", use: "sig"}, pubKey{k: ring[3], kid: "y1", use: "sig"}
+	var kopts []c18KeyOpt
+	for _, o := range mode.opts {
+		kind, set, _ := strings.Cut(o, ":")
+		ko := c18KeyOpt{kind: kind, set: set}
+		switch set {
+		case "X":
+			ko.keys = []pubKey{xKey}
+		case "Xc":
+			xKey.kid = "sig1"
+			ko.keys = []pubKey{xKey}
+		case "Y":
+			ko.keys = []pubKey{yKey}
+		case "own":
+			ko.keys = own
+		}
+		// a key set of the same kind as the provider's own (op.OpenIDKeySet over a storage that publishes ko.keys)
+		ks := &op.OpenIDKeySet{Storage: &keyStore{keys: ko.keys}}
+		if kind == "at" {
+			cfg.Options = append(cfg.Options, op.WithAccessTokenKeySet(ks))
+		} else {
+			cfg.Options = append(cfg.Options, op.WithIDTokenHintKeySet(ks))
+		}
+		kopts = append(kopts, ko)
+	}
+	unknown := pubKey{k: ring[2], kid: "u1", use: "sig"}
+	if secondKey {
+		if !usesX {
+			unknown = pubKey{k: ring[1], kid: "u1", use: "sig"}
+		} else {
+			unknown = pubKey{k: ring[3], kid: "u1", use: "sig"}
+		}
 	}
 	bed, err := opbed.New(cfg)
 	if err != nil {
 		panic(err)
 	}
-	cb := &c18Bed{bed: bed, dynamic: dynamic, byID: map[string]*refstore.Client{}, deflt: deflt}
+	cb := &c18Bed{bed: bed, dynamic: dynamic, byID: map[string]*refstore.Client{}, deflt: deflt,
+		optMode: mode.name, opts: kopts, xKey: xKey, yKey: yKey, unknown: unknown, keys: own}
 	cb.clients = c18Clients(r, canonical)
 	for _, c := range cb.clients {
 		bed.Store.AddClient(c)
 		cb.byID[c.ID] = c
 	}
-	ring := hx.Keys()
-	cb.keys = []pubKey{{k: ring[0], kid: "sig1", use: "sig"}}
 	if secondKey {
 		bed.Store.AddPublishedKey("sig2", jose.ES256, ring[2].Pub, "sig")
-		cb.keys = append(cb.keys, pubKey{k: ring[2], kid: "sig2", use: "sig"})
 	}
 	return cb
+}
+
+// c18KsLine writes a key set under the prefix p (read by the driver's parseKeySet)
+func c18KsLine(l *hx.Line, p string, keys []pubKey) {
+	l.S(p+"kind", "published").I(p+"n", int64(len(keys)))
+	for i, k := range keys {
+		q := fmt.Sprintf("%s%d.", p, i)
+		l.S(q+"kid", k.kid).S(q+"use", k.use).S(q+"kty", k.k.Kty).I(q+"no", int64(k.k.No))
+	}
+}
+
+// hintSet: the keys a hint has to verify under on this bed (the last hint option's, else the OP's own)
+func (cb *c18Bed) hintSet() []pubKey {
+	set := cb.keys
+	for _, o := range cb.opts {
+		if o.kind == "hint" {
+			set = o.keys
+		}
+	}
+	return set
 }
 
 type c18Case struct {
@@ -244,7 +350,12 @@ type c18Case struct {
 	formErr    bool
 	sub        string
 	client     string // the client the request is about
+	signer     string // "" | op | x | y | unknown: who signs the hint (overrides the key of the hint kind)
+	termFail   bool   // the storage refuses to terminate sessions while this request is served
+	plu        string // when set: the post_logout_redirect_uri to send (pk only labels the case)
 }
+
+var errC18Storage = fmt.Errorf("storage: terminate failed")
 
 // run executes one request on the bed and emits its line
 func (cb *c18Bed) run(r *hx.Rand, sy *symbols, caseNo int, cs c18Case, stats map[string]int, w *bufio.Writer) {
@@ -280,8 +391,8 @@ func (cb *c18Bed) run(r *hx.Rand, sy *symbols, caseNo int, cs c18Case, stats map
 		claims["exp"], claims["iat"] = now-3600, now-7200
 	case 3:
 		claims["iat"] = now + 3600
-	case 4:
-		key = ring[1]
+	case 4: // a key nobody knows, under the OP's key id
+		key, alg = cb.unknown.k, cb.unknown.k.Algs[0]
 	case 5:
 		claims["iss"] = foreign
 	case 6:
@@ -300,8 +411,50 @@ func (cb *c18Bed) run(r *hx.Rand, sy *symbols, caseNo int, cs c18Case, stats map
 	case 12:
 		kid = ""
 	case 13:
-		key = ring[1]
+		key, alg = cb.unknown.k, cb.unknown.k.Algs[0]
 		claims["exp"], claims["iat"] = now-3600, now-7200
+	}
+	// the signer dimension: the same hint, signed by the OP / a key of X / a key of Y / a key nobody knows
+	signedBy := "op"
+	if cs.hk == 4 || cs.hk == 13 {
+		signedBy = "unknown"
+	}
+	if cs.signer != "" && cs.hk != 0 && cs.hk != 8 && cs.hk != 9 && cs.hk != 11 {
+		signedBy = cs.signer
+		var pk pubKey
+		switch cs.signer {
+		case "op":
+			pk = pubKey{k: ring[0], kid: "sig1"}
+		case "x":
+			pk = cb.xKey
+		case "y":
+			pk = cb.yKey
+		default:
+			pk = cb.unknown
+		}
+		key, alg = pk.k, pk.k.Algs[0]
+		if cs.hk != 12 {
+			kid = pk.kid
+		}
+	}
+	// does the signing key belong to the set configured for hints / to an access-token set (for the distribution only)
+	inSet := func(set []pubKey) bool {
+		for _, k := range set {
+			if k.k == key {
+				return true
+			}
+		}
+		return false
+	}
+	signerIn := "no-set"
+	if inSet(cb.hintSet()) {
+		signerIn = "hint-set"
+	} else {
+		for _, o := range cb.opts {
+			if o.kind == "at" && inSet(o.keys) {
+				signerIn = "access-token-set-only"
+			}
+		}
 	}
 	if cs.hk != 0 && cs.hk != 8 {
 		payload, _ := json.Marshal(claims)
@@ -389,6 +542,9 @@ func (cb *c18Bed) run(r *hx.Rand, sy *symbols, caseNo int, cs c18Case, stats map
 	case 9:
 		plu = hx.Pick(r, "https://rp.example/%zz", "::bad", "https://rp.example/lo?a=1;b=2", " https://rp.example/logged-out")
 	}
+	if cs.plu != "" {
+		plu = cs.plu
+	}
 	// ---- the request
 	q := url.Values{}
 	if hint != "" {
@@ -414,18 +570,34 @@ func (cb *c18Bed) run(r *hx.Rand, sy *symbols, caseNo int, cs c18Case, stats map
 		req = httptest.NewRequest(http.MethodGet, base+"/end_session?"+q.Encode(), nil)
 	}
 	nTerm := len(bed.Store.Terminated)
+	if cs.termFail {
+		bed.Store.FailMethod("TerminateSession", errC18Storage)
+		bed.Store.FailMethod("TerminateSessionFromRequest", errC18Storage)
+	}
 	t0 := time.Now()
 	resp := bed.Do(req)
 	t1 := time.Now()
+	if cs.termFail {
+		bed.Store.ClearFaults()
+	}
 	term := bed.Store.Terminated[nTerm:]
 
 	// ---- the line
 	kind := fmt.Sprintf("h%d.c%d.p%d.s%d", cs.hk, cs.ck, cs.pk, map[bool]int{false: 0, true: 1}[cs.state != ""])
+	if cb.optMode != "none" {
+		kind += ".o-" + cb.optMode
+	}
+	if cs.signer != "" && hint != "" && cs.hk != 8 {
+		kind += ".k-" + signedBy
+	}
+	if cs.termFail {
+		kind += ".tf"
+	}
 	if cs.formErr {
 		kind = "formerr"
 	}
 	l := hx.NewLine("C18").I("case", int64(caseNo)).S("kind", kind).S("router", bed.Cfg.Router).B("termfromreq", bed.Cfg.Caps.TermFromReq).
-		B("dynamic", cb.dynamic).S("issuer", reqIssuer).S("default", cb.deflt).B("post", cs.post).I("now0", t0.UnixNano()).I("now1", t1.UnixNano())
+		B("dynamic", cb.dynamic).B("termfail", cs.termFail).S("issuer", reqIssuer).S("default", cb.deflt).B("post", cs.post).I("now0", t0.UnixNano()).I("now1", t1.UnixNano())
 	l.I("cl.n", int64(len(cb.clients)))
 	for i, c := range cb.clients {
 		p := fmt.Sprintf("cl.%d.", i)
@@ -435,6 +607,11 @@ func (cb *c18Bed) run(r *hx.Rand, sy *symbols, caseNo int, cs c18Case, stats map
 		}
 	}
 	ksLinePub(l, "published", cb.keys)
+	l.S("optmode", cb.optMode).I("opt.n", int64(len(cb.opts)))
+	for i, o := range cb.opts {
+		l.S(fmt.Sprintf("opt.%d.k", i), o.kind).S(fmt.Sprintf("opt.%d.set", i), o.set)
+		c18KsLine(l, fmt.Sprintf("opt.%d.ks.", i), o.keys)
+	}
 	if cs.formErr {
 		l.B("formerr", true).B("hint", false).S("cid", "").S("plu", "").S("state", "")
 	} else {
@@ -511,6 +688,22 @@ func (cb *c18Bed) run(r *hx.Rand, sy *symbols, caseNo int, cs c18Case, stats map
 	l.L("journal", resp.Journal)
 	fmt.Fprintln(w, l.String())
 	stats[fmt.Sprintf("hint-%02d", cs.hk)]++
+	stats["opts-"+cb.optMode]++
+	if cs.termFail {
+		stats["storage-refuses-termination"]++
+	}
+	if hint != "" && cs.hk != 8 && !cs.formErr {
+		outcome := "rejected"
+		if resp.Status == http.StatusFound && loc != "" {
+			outcome = "redirect"
+		}
+		stats["signer-"+signedBy]++
+		stats["signer-in-"+signerIn+":"+outcome]++
+		// the cross the property is about: option combination x signer x outcome (hints that are otherwise in order)
+		if cs.hk == 1 || cs.hk == 2 || cs.hk == 3 || cs.hk == 4 || cs.hk == 13 {
+			stats["cross:"+cb.optMode+":signed-by-"+signedBy+":"+outcome]++
+		}
+	}
 	stats[fmt.Sprintf("plu-%d", cs.pk)]++
 	stats["router-"+bed.Cfg.Router]++
 	if cb.dynamic {
@@ -544,7 +737,7 @@ func c18Stream(r *hx.Rand, tier string, n int, w *bufio.Writer) map[string]int {
 		for _, router := range []string{"provider", "legacy"} {
 			for _, tfr := range []bool{false, true} {
 				for _, dyn := range []bool{false, true} {
-					cb := c18NewBed(r, router, tfr, dyn, true, c18DefaultPool[0], true)
+					cb := c18NewBed(r, router, tfr, dyn, true, c18DefaultPool[0], true, 0)
 					flip := 0
 					for hk := 0; hk < c18HintKinds; hk++ {
 						for ck := 0; ck < c18CidKinds; ck++ {
@@ -569,11 +762,67 @@ func c18Stream(r *hx.Rand, tier string, n int, w *bufio.Writer) map[string]int {
 		stats["exhaustive-cross-cases"] = caseNo
 	}
 
+	// ---- part 1b (both tiers): the key-set cross on the canonical registration, exhaustively:
+	// option combination x router x signer x {valid, expired} hint x {no client_id, matching client_id} x {no URI, registered URI}
+	crossStart := caseNo
+	for om := range c18OptModes {
+		for _, router := range []string{"provider", "legacy"} {
+			cb := c18NewBed(r, router, om%2 == 1, om%3 == 1, true, c18DefaultPool[0], om%4 == 2, om)
+			flip := 0
+			for _, signer := range c18Signers {
+				for _, hk := range []int{1, 2} {
+					for ck := 0; ck < 2; ck++ {
+						for pk := 0; pk < 2; pk++ {
+							flip++
+							host := c18HostA
+							if flip%3 == 0 {
+								host = c18HostB
+							}
+							st := ""
+							if flip%4 == 0 {
+								st = "xyz"
+							}
+							cs := c18Case{hk: hk, ck: ck, pk: pk, state: st, host: host, sub: hx.Pick(r, "user1", "user2"),
+								client: clientIDs[(hk+ck+pk+flip)%len(clientIDs)], signer: signer}
+							cb.run(r, sy, caseNo, cs, stats, w)
+							caseNo++
+						}
+					}
+				}
+			}
+		}
+	}
+	stats["keyset-cross-cases"] = caseNo - crossStart
+	// ---- part 1c (both tiers): every exactly registered URI of the canonical registration that contains a glob
+	// metacharacter, with that character replaced (what the URI would accept if it were read as a pattern): near-misses
+	for _, router := range []string{"provider", "legacy"} {
+		cb := c18NewBed(r, router, false, false, true, c18DefaultPool[0], false, 0)
+		for _, c := range cb.clients {
+			for _, u := range c.PostLogout {
+				i := strings.IndexAny(u, "?*[")
+				if i < 0 {
+					continue
+				}
+				for _, ch := range []string{"X", "@", "-"} {
+					cs := c18Case{hk: 0, ck: 1, pk: 2, host: c18HostA, sub: "user1", client: c.ID, plu: u[:i] + ch + u[i+1:]}
+					cb.run(r, sy, caseNo, cs, stats, w)
+					caseNo++
+					stats["pattern-near-miss-cases"]++
+				}
+			}
+		}
+	}
+	n += caseNo - crossStart
+
 	// ---- part 2: random histories on random registrations
 	for caseNo < n || (tier == "thorough" && caseNo < n+stats["exhaustive-cross-cases"]) {
 		router := hx.Pick(r, "provider", "legacy")
 		dyn := r.Chance(50)
-		cb := c18NewBed(r, router, r.Chance(35), dyn, r.Chance(30), c18DefaultPool[r.Intn(len(c18DefaultPool))], r.Chance(50))
+		optMode := 0
+		if r.Chance(45) {
+			optMode = r.Intn(len(c18OptModes))
+		}
+		cb := c18NewBed(r, router, r.Chance(35), dyn, r.Chance(30), c18DefaultPool[r.Intn(len(c18DefaultPool))], r.Chance(50), optMode)
 		reqs := 8 + r.Intn(30)
 		for i := 0; i < reqs; i++ {
 			cs := c18Case{sub: hx.Pick(r, "user1", "user2"), client: clientIDs[r.Intn(len(clientIDs))], host: hx.Pick(r, c18HostA, c18HostB), post: r.Chance(20)}
@@ -583,6 +832,10 @@ func c18Stream(r *hx.Rand, tier string, n int, w *bufio.Writer) map[string]int {
 			cs.pk = hx.Pick(r, 0, 1, 1, 1, 3, r.Intn(c18PluKinds), r.Intn(c18PluKinds))
 			cs.state = hx.Pick(r, "", "", c18States[r.Intn(len(c18States))])
 			cs.formErr = r.Chance(1)
+			cs.termFail = r.Chance(4)
+			if optMode != 0 && r.Chance(60) || r.Chance(8) {
+				cs.signer = c18Signers[r.Intn(len(c18Signers))]
+			}
 			cb.run(r, sy, caseNo, cs, stats, w)
 			caseNo++
 		}
